@@ -1,6 +1,7 @@
 package ledger
 
 import (
+	"bytes"
 	"crypto/sha256"
 	"fmt"
 	"sort"
@@ -285,7 +286,10 @@ func callScript(h util.Uint160, method string, args ...any) []byte {
 
 // (selectors are taken modulo the length from 0..15: the first six keys have double weight - a stored key with deeper
 // siblings below it, some smaller and some larger than its own last byte)
-var kKeys = [][]byte{{0x01, 0x02}, {0x01, 0x02, 0x01}, {0x01, 0x02, 0x00, 0xff}, {0x01, 0x02, 0x03}, {0x01}, {0x02}, {0xff}, {0xff, 0xff}, {0x00}, {}}
+var kKeys = [][]byte{{0x01, 0x02}, {0x01, 0x02, 0x01}, {0x01, 0x02, 0x00, 0xff}, {0x01, 0x02, 0x03}, {0x01}, {0x02}, {0xff}, {0xff, 0xff}, {0x00}, {}, longKey}
+
+// longKey has the maximum storage key length (64 bytes).
+var longKey = append(bytes.Repeat([]byte{0x01, 0x02}, 31), 0x7f, 0x80)
 var kVals = [][]byte{{0xaa}, {0xaa}, {0xbb, 0xbb}, {}, {0x01, 0x02, 0x03, 0x04, 0x05, 0x06, 0x07, 0x08}, {0xaa}}
 
 // buildTx materialises one op. It returns nil when the op cannot be expressed in the current state.
@@ -316,6 +320,20 @@ func (p *producer) buildTx(o Op, extraAttrs []transaction.Attribute) (tx *transa
 		}
 		script = callScript(tok, "transfer", a.ScriptHash(), p.kr.acctHash(o.B), amount, nil)
 		desc = fmt.Sprintf("%s a%d->a%d %d", opNames[o.Kind], o.A, o.B%numAccounts, amount)
+		if o.Y%8 == 7 {
+			// the `data` argument is a Pointer: the callee ignores it, but it cannot be serialised (nodes that record
+			// invocations have to cope with that without changing the outcome)
+			w := nio.NewBufBinWriter()
+			emit.Instruction(w.BinWriter, opcode.PUSHA, []byte{0, 0, 0, 0})
+			emit.Int(w.BinWriter, amount)
+			emit.Bytes(w.BinWriter, p.kr.acctHash(o.B).BytesBE())
+			emit.Bytes(w.BinWriter, a.ScriptHash().BytesBE())
+			emit.Int(w.BinWriter, 4)
+			emit.Opcodes(w.BinWriter, opcode.PACK)
+			emit.AppCallNoArgs(w.BinWriter, tok, "transfer", callflag.All)
+			script = w.Bytes()
+			desc += " data=pointer"
+		}
 	case OpVote:
 		var to any
 		switch {
@@ -333,6 +351,11 @@ func (p *producer) buildTx(o Op, extraAttrs []transaction.Attribute) (tx *transa
 	case OpRegister:
 		script = callScript(nativehashes.NeoToken, "registerCandidate", p.kr.accts[o.A%numAccounts].PublicKey().Bytes())
 		desc = fmt.Sprintf("register a%d", o.A)
+		if o.Y%3 == 2 {
+			// the NEP-27 route: the registration price is paid to the NEO contract with the public key as data
+			script = callScript(nativehashes.GasToken, "transfer", a.ScriptHash(), nativehashes.NeoToken, int64(1000_00000000), p.kr.accts[o.A%numAccounts].PublicKey().Bytes())
+			desc += " (by payment)"
+		}
 	case OpUnregister:
 		script = callScript(nativehashes.NeoToken, "unregisterCandidate", p.kr.accts[o.A%numAccounts].PublicKey().Bytes())
 		desc = fmt.Sprintf("unregister a%d", o.A)
